@@ -28,6 +28,7 @@ ASSUMPTIONS = [
 ]
 DECIDING = ["pauses_checked", "histories_completed"]
 THOROUGH_SHARDS = 12
+REPLAY_BY_SEED = True  # histories are regenerated from the seed; see main.py
 
 
 def make_interrupts(rng, spec, n):
